@@ -62,14 +62,14 @@ let run_line (toks : string list) : string =
       let recs = (try Hashtbl.find traces idx with Not_found -> []) in
       Stdlib.List.iter (fun a -> if not (answer_ok a) then incr bad_answers) recs;
       (* the further hypotheses of the round-trip theorems C01_stream_roundtrip_main_path(_meta) on every recorded
-         answer of the main path (answer_ok3 of proofs/Roundtrip_defs.v: size, clean tail, and the pending bits the
+         answer, main path and quality 0/1 fast path alike (answer_ok3 of proofs/Roundtrip_defs.v: size, clean tail, and the pending bits the
          back end was invoked on are the first bits it wrote): the first answer of a call sees the encoder's pending
          bits at call entry, later ones what the previous answer left *)
       (if call.[0] <> 's' && call.[0] <> 't' then begin
         let s1 = ensure_initialized !s in
         let rec chk lb lbb = function
           | [] -> ()
-          | a :: t -> (if not a.a_fast && not (answer_ok3 lb lbb a) then begin incr bad_answers3;
+          | a :: t -> (if not (answer_ok3 lb lbb a) then begin incr bad_answers3;
               if Sys.getenv_opt "VERIF_DEBUG3" <> None then
                 prerr_endline (Printf.sprintf "answer_ok3 fails at call %d: answer_ok=%b size_ok=%b tail_clean=%b carry_kept=%b pending=%d/%d a_lb=%d a_lbb=%d last=%b outlen=%d"
                   idx (answer_ok a) (size_ok a) (tail_clean a) (carry_keptb lb lbb a) (int_of_n lb) (int_of_n lbb) (int_of_n a.a_lb) (int_of_n a.a_lbb) a.a_is_last
